@@ -26,7 +26,7 @@ func firstErrorNotBefore(s *Script, intact int, label string) {
 	if len(errs) > 0 && intact >= 0 {
 		e := errs[0].Range.Start
 		sym.Observe("first", e.Line, e.Column, intact)
-		sym.Assert(e.Line > 0 || e.Column >= 2*intact, label+"-first-error-not-before-last-intact-token")
+		sym.Assert(e.Column >= 2*intact, label+"-first-error-not-before-last-intact-token")
 	}
 }
 
@@ -130,6 +130,41 @@ func ZZH12Literal() {
 	if len(errs) > 0 {
 		e := errs[0].Range.Start
 		sym.Assert(e.Line > 0 || e.Column >= len(prefix), "truncated-literal-first-error-not-before-the-literal")
+	}
+	sym.Cover("end")
+}
+
+// ZZH12Number: a program truncated inside a numeric literal (`0x`, `1e`, `0b`)
+// or whose number runs into an identifier character (`1a`, `0b2`, `0x1g`) is
+// not valid JavaScript - the character after a numeric literal must not be an
+// identifier start or a digit - and must be rejected by strict mode (C12, text
+// level: the real lexer and parser read the text).
+func ZZH12Number() {
+	K := sym.Param("K", 3)
+	n := 1 + sym.Choose("len", K)
+	lit := sym.String("d", n)
+	sym.Assume(rDigitB(lit[0]))
+	allDigits := true
+	for i := 0; i < n; i++ {
+		c := lit[i]
+		alnum := sym.Or(rDigitB(c), sym.Or(sym.And(c >= 'a', c <= 'z'), sym.And(c >= 'A', c <= 'Z')))
+		sym.Assume(alnum)
+		allDigits = sym.And(allDigits, rDigitB(c))
+	}
+	// not one complete literal: neither a literal of the reference grammar nor a legacy all-digit form;
+	// the BigInt suffix is outside the subset
+	sym.Assume(sym.Not(allDigits))
+	sym.Assume(rNumberEnd(lit, 0) != n)
+	sym.Assume(lit[n-1] != 'n')
+	src := "x=" + lit
+	p := parser.NewBuilder(lexer.NewBuilder()).Build(src)
+	_, err := p.ParseProgram()
+	errs := p.Errors()
+	sym.Observe("src", src, len(errs))
+	sym.Assert(err != nil && len(errs) > 0, "malformed-number-rejected")
+	if len(errs) > 0 {
+		e := errs[0].Range.Start
+		sym.Assert(e.Line > 0 || e.Column >= 2, "malformed-number-first-error-not-before-the-literal")
 	}
 	sym.Cover("end")
 }
